@@ -334,6 +334,39 @@ void skeleton(Profile &p, std::vector<std::string> &out) {
     p.nkeys = space;
     return;
   }
+  if ((c < 50 && (p.kind == "C01" || p.kind == "C06" || p.thorough)) || (p.kind == "C14" && c < 56)) {
+    // one user key whose versions (held by snapshots) are large enough to straddle two level-1 files, next to small
+    // tables at levels 1 and 2, then partial-range compactions of level 1 whose input set has to be expanded
+    int lo = uni(0, 2), mid = lo + uni(1, 2), hi = mid + uni(1, 2), big = hi + uni(1, 3);
+    auto sv = [&]() { return fmt("r%d.%d", uni(0, 99999), uni(1, 60)); };
+    out.push_back(fmt("put tk%04d ", lo) + sv());
+    out.push_back(fmt("put tk%04d ", hi) + sv());
+    out.push_back("flush");
+    out.push_back("crange 0 - -");
+    if (chance(80)) out.push_back("crange 1 - -");
+    out.push_back(fmt("put tk%04d ", lo) + sv());
+    if (chance(60)) out.push_back(fmt("put tk%04d ", lo + 1) + sv());
+    out.push_back("flush");
+    out.push_back(fmt("put tk%04d ", mid + (chance(50) ? 0 : 1)) + sv());
+    out.push_back("flush");
+    out.push_back(fmt("put tk%04d ", mid + (chance(50) ? 0 : 1)) + sv());
+    int nv = uni(3, 4);
+    for (int i = 0; i < nv; i++) {
+      out.push_back(fmt("put tk%04d r%d.%d", big, uni(0, 99999), uni(380000, 540000)));
+      if (i + 1 < nv) out.push_back(new_snap(p));
+    }
+    out.push_back("flush");
+    out.push_back("crange 0 - -");
+    int nc = uni(1, 3);
+    for (int i = 0; i < nc; i++) {
+      int b = uni(lo, hi), e = uni(b, big);
+      out.push_back(fmt("crange 1 %s %s", chance(15) ? "-" : fmt("tk%04d", b).c_str(), chance(15) ? "-" : fmt("tk%04d", e).c_str()));
+    }
+    out.push_back(fmt("get tk%04d", big));
+    out.push_back("check");
+    p.nkeys = big + 2;
+    return;
+  }
   if (c < 56) {
     // value pushed deep, tombstone (or overwrite) flushed above it, then compact the upper level
     std::string k = gen_key(p);
